@@ -111,6 +111,19 @@ def shifted_cfg(cfg, q0, k):
 
 
 SHIFT_EXCLUDE = {'iota2', 'varphi'}
+FMIN_OUT = dict(min_R0=('R0', -1), min_L_grad_B=('L_grad_B', -1), max_elongation=('elongation', 1))
+
+
+def tied_extremum(q, name):
+    """the two best samples of the profile behind a fourier_minimum output agree to 1e-9 relative and are not neighbours"""
+    prof, sign = FMIN_OUT[name]
+    y = sign * np.asarray(getattr(q, prof), dtype=float)
+    if y.ndim != 1 or y.size < 4:
+        return False
+    order = np.argsort(-y)
+    j0, j1 = int(order[0]), int(order[1])
+    sep = min((j0 - j1) % y.size, (j1 - j0) % y.size)
+    return bool(sep > 1 and abs(y[j0] - y[j1]) <= 1e-9 * max(abs(y[j0]), 1e-300))
 
 
 def predict_shift(cfg, k, tol=1e-6, q0=None):
@@ -166,6 +179,11 @@ def predict_shift(cfg, k, tol=1e-6, q0=None):
                 dev = np.zeros_like(dev)
         err = float(np.max(dev)) if np.size(dev) else 0.0
         checked += 1
+        if err > tol and name in FMIN_OUT and tied_extremum(q0, name):
+            # fourier_minimum refines the extremum next to the discrete arg-extremum; when the two best samples are equal to round-off (mirror-image partners of a
+            # stellarator-symmetric profile) the choice between them is made by round-off, and on an unresolved profile the two refinements differ: conditioning of
+            # the selection, not a dependence on the origin (on exactly shifted data fourier_minimum is shift invariant: theories/Bracket.v, kernels oracle)
+            continue
         if err > tol and scale > 1e-200:
             out.append(dict(key='shift:' + name, what='%s is not the cyclic shift of the original after moving the origin by %d grid points (rel err %.3g)' % (name, k, err),
                             rel_err=err, cfg=jsonable(cfg), k=int(k)))
